@@ -412,6 +412,7 @@ func c11Run(x *engine.X) {
 		}
 		return out
 	}
+	var srcSorting []parquet.SortingColumn
 	writeA := func() ([]byte, int64, error) {
 		var buf bytes.Buffer
 		w := parquet.NewWriter(&buf, append([]parquet.WriterOption{rg.Schema()}, dstCfg.opts...)...)
@@ -422,6 +423,7 @@ func c11Run(x *engine.X) {
 				}
 			}
 		}
+		srcSorting = rg.SortingColumns()
 		n, err := w.WriteRowGroup(rg)
 		if err != nil {
 			return nil, n, fmt.Errorf("WriteRowGroup: %w", err)
@@ -536,7 +538,7 @@ func c11Run(x *engine.X) {
 	}
 	_ = nA
 	// well-formedness + destination configuration honoured (compared with the row-path file)
-	checkFileAgainstSpec(x, shape, dataA, nil, dstCfg.maxRows)
+	checkFileAgainstSpec(x, shape, dataA, nil, dstCfg.maxRows, srcSorting...)
 	if x.Failed() {
 		return
 	}
